@@ -461,6 +461,43 @@ func runJob(h *Harness, params []int, tier string) *JobResult {
 			}
 		}
 	}
+	// Fallback for a job the engine could not finish (internal error, unwinding limit, no result): the
+	// witnesses committed for the unchanged tree are still inputs of this harness. They are replayed on the
+	// real VM, which evaluates every assertion on the way; what fails there is reported below. Without this a
+	// change that drives the engine into something it cannot execute passed with an INCONCLUSIVE line.
+	if len(res.Inconclusive) > 0 {
+		for _, id := range committedRequireIDs(h, params) {
+			w := committedWitness(h, params, id)
+			if w == nil {
+				continue
+			}
+			r, errMsg := l.replayModel(h, params, w)
+			res.Replays++
+			if errMsg != "" {
+				res.Inconclusive = append(res.Inconclusive, "fallback replay of the committed witness of "+id+": "+errMsg)
+				continue
+			}
+			res.ReplaysAgree++
+			for aid := range r.replayFails {
+				if _, seen := vmRefuted[aid]; !seen {
+					vmRefuted[aid] = vmRefutation{model: w, trace: r.replayLog, via: id + " (committed for the unchanged tree; the symbolic run of this job was inconclusive)"}
+				}
+				found := false
+				for _, ob := range res.Obligations {
+					if ob.ID == aid {
+						found = true
+					}
+				}
+				if !found {
+					kind := "assert"
+					if r.replayKnown[aid] {
+						kind = "known"
+					}
+					res.Obligations = append(res.Obligations, &Obligation{ID: aid, Kind: kind, Verdict: "unknown", Notes: []string{"not decided by the symbolic run"}})
+				}
+			}
+		}
+	}
 	// An assertion that fails on the real VM during the replay of a witness is a reproduced counterexample
 	// even if the solver discharged it (then the encoding is wrong somewhere) or reported other models. It
 	// used to be mentioned in the witness's status only, where nothing looked at it.
